@@ -497,9 +497,13 @@ func (c *checker) resaveSpecs(set []namedCfg, drivers []string) []spec {
 			for _, b := range set {
 				out = append(out,
 					spec{Kind: "resave", Driver: d, Shape: "save-save-load", Seq: []seqOp{sv(a), sv(b), ld}},
-					spec{Kind: "resave", Driver: d, Shape: "save-save-save-load", Seq: []seqOp{sv(a), sv(b), sv(a), ld}},
 					spec{Kind: "resave", Driver: d, Shape: "save-load-save-load-save-load", Seq: []seqOp{sv(a), ld, sv(b), ld, sv(a), ld}},
 				)
+				// three writes and no load in between: the reading side adds nothing over the shapes above, so the quick tier
+				// reads it back through Load only
+				if c.w.thorough || d == drvLoad {
+					out = append(out, spec{Kind: "resave", Driver: d, Shape: "save-save-save-load", Seq: []seqOp{sv(a), sv(b), sv(a), ld}})
+				}
 			}
 		}
 	}
